@@ -46,25 +46,26 @@ typedef struct {
 } cfg_t;
 
 static const cfg_t cfgs[] = {
-    { "ES1 set_main_sched(auto sched,PB) old:1 new:1 X->new", 0, W_ES1,
-      API_SCHED_AUTO, 1, 1, 1, PUSH_NEW },
-    { "ES1 set_main_sched_basic(PB) old:1 new:0 X->old", 1, W_ES1, API_BASIC, 1,
-      1, 0, PUSH_OLD },
-    { "ES1 set_main_sched(NULL) default old sched, no units", 1, W_ES1,
-      API_NULL, 0, 0, 0, PUSH_NONE },
-    { "ES0 set_main_sched(auto sched,PB) new:1 X->new", 1, W_ES0,
-      API_SCHED_AUTO, 0, 0, 1, PUSH_NEW },
+    /* quick tier, cheapest first (a deadline cuts the tail, not the head) */
     { "ES0 set_main_sched_basic(auto pool)", 1, W_ES0, API_BASIC_AUTOPOOL, 0, 0,
       0, PUSH_NONE },
-    { "TERM join; set_main_sched(user sched,PB) X->new; revive", 1, W_TERM,
-      API_SCHED_USER, 0, 0, 0, PUSH_NEW },
+    { "ES0 set_main_sched(auto sched,PB) new:1 X->new", 1, W_ES0,
+      API_SCHED_AUTO, 0, 0, 1, PUSH_NEW },
+    { "ES1 set_main_sched(NULL) default old sched, no units", 1, W_ES1,
+      API_NULL, 0, 0, 0, PUSH_NONE },
     { "TERM join; set_main_sched_basic(PB) old user pool; revive", 1, W_TERM,
       API_BASIC, 1, 0, 1, PUSH_NONE },
+    { "TERM join; set_main_sched(user sched,PB) X->new; revive", 1, W_TERM,
+      API_SCHED_USER, 0, 0, 0, PUSH_NEW },
     { "ES1 set_main_sched(auto sched,PB), PB also served by ES2", 1, W_ES1,
       API_SCHED_AUTO, 0, 0, 0, PUSH_NONE, 1 },
+    { "ES1 set_main_sched_basic(PB) old:1 new:0 X->old", 1, W_ES1, API_BASIC, 1,
+      1, 0, PUSH_OLD },
+    /* thorough */
+    { "ES1 set_main_sched(auto sched,PB) old:1 new:1 X->new", 0, W_ES1,
+      API_SCHED_AUTO, 1, 1, 1, PUSH_NEW },
     { "LIFE join; revive; unit; free  X->main pool", 0, W_LIFE, API_NULL, 0, 1,
       0, PUSH_MAIN, 0 },
-    /* thorough */
     { "ES1 set_main_sched(user sched,PB) old:2 new:2 X->new", 0, W_ES1,
       API_SCHED_USER, 1, 2, 2, PUSH_NEW },
     { "ES1 set_main_sched(auto sched,PB) old:2 new:1 X->old", 0, W_ES1,
